@@ -213,8 +213,67 @@ def two_runs(case):
     return fails, out
 
 
+POOL8 = [('D1', 'Z1'), ('D8', 'X4'), ('D2', 'X1'), ('D7', 'Z3'), ('D1', 'X1'), ('D9', 'X4'), ('D4', 'Z1'), ('D3', 'X2')]
+
+
+class OrderedTupleFamily(Family):
+    """Acceptance must not depend on the order in which the gates are listed: every ordered k-tuple (k = 2, 3, 4) of distinct edges from a
+    pool of eight edges that collide with each other in many ways, given (a) to get_mutually_allowed and (b) to the generator as an edge
+    list with subgroup size k (the only partition is the tuple itself, so any emitted sequence is that step)."""
+    name = 'ordered-tuples'
+    rule = ('every ordered k-tuple, k in {2,3,4}, of distinct edges from a pool of 8: get_mutually_allowed vs the predicate, and the generator with subgroup size k may emit '
+            'the step only if the predicate accepts it; plus edge lists whose length is not a multiple of the subgroup size (nothing that omits a gate may be emitted); '
+            'non-trivial = the tuple is rejected by the predicate')
+
+    def shards(self, tier):
+        return [(k, i) for k in (2, 3, 4) for i in range(8)] + [('ragged', 0)]
+
+    def cases(self, tier, shard):
+        k, first = shard
+        if k == 'ragged':
+            for n, size in ((5, 2), (4, 3), (2, 3), (7, 3), (5, 4)):
+                yield ('ragged', tuple(range(n)), size)
+            return
+        for t in itertools.permutations(range(8), k):
+            if t[0] == first:
+                yield ('tuple', t, k)
+
+    def run(self, case):
+        kind, idx, size = case
+        res = Res()
+        L = Surface17Layer()
+        edges = [POOL8[i] for i in idx]
+        norm = [tuple(sorted(e)) for e in edges]
+        objs = [edge_obj(e) for e in edges]
+        want = freq.accepted(norm)
+        if kind == 'tuple':
+            ops = [Operation.type_gate(o) for o in objs]
+            before = list(ops)
+            got = bool(GateSequenceGenerator.get_mutually_allowed(ops, L))
+            if got != want:
+                res.fail('C16-accept', 'gates %r (in this order): accepted=%r, reference predicate says %r' % (edges, got, want))
+            if len(ops) != len(before) or any(a is not b for a, b in zip(ops, before)):
+                res.fail('C16-accept-mutates-input', 'gates %r: get_mutually_allowed changed the list it was given' % (edges,))
+        gen = GateSequenceGenerator(included_edge_ids=objs, connectivity=L)
+        ident = gen.construct_allowed_gate_sequences(subgroup_size=size, max_combinations=10 ** 6)
+        n = 0
+        for seq in ident.construct_operation_sequences():
+            n += 1
+            steps = [tuple(sorted(tuple(sorted(q.id for q in op.identifier.qubit_ids)) for op in step)) for step in seq.gate_operations]
+            if sorted(e for st in steps for e in st) != sorted(norm):
+                res.fail('C16-generator-gates', 'edge list %r, subgroup size %d: sequence %r does not use each requested gate exactly once' % (edges, size, steps))
+            for st in steps:
+                if not freq.accepted(list(st)):
+                    res.fail('C16-generator-step', 'edge list %r, subgroup size %d: emitted step %r is not accepted by the predicate' % (edges, size, st))
+        res.extra = {'accepted-single-step-not-emitted': int(kind == 'tuple' and want and n == 0)}
+        res.outcome = (case, n)
+        res.transitions = 1 + n
+        res.trivial = bool(want) and kind == 'tuple'
+        return res
+
+
 def families(tier):
-    return [SubsetFamily(3 if tier == 'quick' else 4), GeneratorFamily(tier), GeneratorSequenceFamily()]
+    return [SubsetFamily(3 if tier == 'quick' else 4), GeneratorFamily(tier), GeneratorSequenceFamily(), OrderedTupleFamily()]
 
 
 def signature(f):
